@@ -198,7 +198,7 @@ CHECKS = {
         "level": "other",
         "ref": "DESIGN.md §5 C06",
         "technique": 'finite decision tables (sort key, finish flags, lexer stop rule, GLR filter) and provenance/sibling rules over MIR',
-        "text": "Decides the structure of lexical disambiguation: candidate set, stable descending sort and key table, finish-flag tables, the lexer's stop table, LR/GLR parser-side filters and their sibling agreement, kind->recogniser mapping, shifted heads of lexical alternatives kept apart by position (shared with C03-R2); one known finding (priority-group cut). Partial: not which token wins for concrete regexes and inputs. Late addition: the terminal order key must be lexicographic (C06-R7; known finding: prio*1000+len). C06-R8: create_frontier must not let one head displace another in a (position, kind, state) slot (known finding: it does).",
+        "text": "Decides the structure of lexical disambiguation: candidate set, stable descending sort and key table, finish-flag tables, the lexer's stop table, LR/GLR parser-side filters and their sibling agreement, kind->recogniser mapping, shifted heads of lexical alternatives kept apart by position (shared with C03-R2); one known finding (priority-group cut). Partial: not which token wins for concrete regexes and inputs. Late addition: the terminal order key must be lexicographic (C06-R7; known finding: prio*1000+len). C06-R8: create_frontier must not let one head displace another in a (position, kind, state) slot (known finding: it does). C06-R9: after a reduction the LR parser selects the token again in the new state (shares C02-R3).",
         "note": 'Trusted: rustc MIR; documented order of strategies (docs lexical ambiguities).',
     },
     "C07": {
